@@ -29,4 +29,11 @@ PROPS = {
         "assumptions": ["clock is monotone", "adversary presents issued tokens or junk (symbolic model)"],
         "level_note": "store-level clauses proved for all histories; the handler-level gate (store only after checkin accepts, error 203, wrong-length tokens) is decided by the handler model of C05 (C06_gate)",
     },
+    "C07": {
+        "engines": [{"name": "storage", "quick": 30, "thorough": 400}],
+        "constants": ["MAX_ITEMS_STORED", "EXPIRATION_TIME_ns"],
+        "trusted": COMMON_TRUST + ["the HashMap<InfoHash, Vec<item>> is represented by one list in push order (observationally the same map: lookups are by key only)"],
+        "assumptions": ["clock is monotone"],
+        "level_note": "store-level clauses proved for all histories (refinement to a 3-function spec + exactness over histories); which address is stored and the family filter of the reply are handler-level (C05 model)",
+    },
 }
